@@ -473,16 +473,19 @@ func (g *G) WrapOf(name string, c *B, k Kind) *B {
 		b.Safe = append(append([]string{}, c.Safe...), m)
 		b.Link = &link
 	case WTags:
-		m := g.StrU(name + ".m")
 		var ctx context.Context
 		switch g.V.Choice(name+".tagkind", 3) {
 		case 0:
+			m := g.StrU(name + ".m")
 			ctx = logtags.AddTag(context.Background(), "tk", m)
 			b.Unsafe = append(append([]string{}, c.Unsafe...), m)
 		case 1:
 			// a value marked safe, plus a tag without value
+			m := g.StrS(name + ".m")
 			ctx = logtags.AddTag(logtags.AddTag(context.Background(), "tk", errors.Safe(m)), "flag", nil)
+			b.Safe = append(append([]string{}, c.Safe...), m)
 		case 2:
+			m := g.StrU(name + ".m")
 			ctx = logtags.AddTag(logtags.AddTag(context.Background(), "n", 7), "tk", m)
 			b.Unsafe = append(append([]string{}, c.Unsafe...), m)
 		}
